@@ -176,3 +176,106 @@ V("C15", "benign-rename-stop-at", P,
    ("            if _timer() >= stop_at:", "            if _timer() >= deadline:")], "silent")
 V("C15", "benign-deadline-flipped", P,
   ("            if _timer() >= stop_at:", "            if stop_at <= _timer():"), "silent")
+
+# ----------------------------------------------------------------- C16
+V("C16", "deactivate-missing", I,
+  ("                    self.memory_info.cache_deactivate(self)\n", ""), "fires:C16.R1")
+V("C16", "deactivate-not-in-finally", I,
+  ("                    yield\n                finally:\n                    self.cpu_times.cache_deactivate(self)",
+   "                    yield\n                    self.cpu_times.cache_deactivate(self)\n                finally:\n                    pass"),
+  "fires:C16.R1")
+V("C16", "linux-exit-forgets-status", L,
+  ("        self._read_status_file.cache_deactivate(self)\n", ""), "fires:C16.R1")
+V("C16", "osx-enter-forgets", "psutil/_psosx.py",
+  ("        self._get_pidtaskinfo.cache_activate(self)\n", ""), "fires:C16.R1")
+V("C16", "uids-reads-status-directly", L,
+  ("        data = self._read_status_file()\n        real, effective, saved = _uids_re.findall(data)[0]",
+   "        with open_binary(f\"{self._procfs_path}/{self.pid}/status\") as f:\n            data = f.read()\n        real, effective, saved = _uids_re.findall(data)[0]"),
+  "fires:C16.R2")
+V("C16", "stat-reader-not-memoised", L,
+  ("    @wrap_exceptions\n    @memoize_when_activated\n    def _parse_stat_file(self):",
+   "    @wrap_exceptions\n    def _parse_stat_file(self):"), "fires:C16.R1")
+V("C16", "lock-narrowed", I,
+  ("        with self._lock:\n            if hasattr(self, \"_cache\"):",
+   "        if True:\n            if hasattr(self, \"_cache\"):"), "fires:C16.R3")
+V("C16", "nested-reactivates", I,
+  ("            if hasattr(self, \"_cache\"):", "            if hasattr(self, \"_cache_\"):"),
+  "fires:C16.R3")
+V("C16", "memoiser-store-not-tolerant", C,
+  ("            try:\n                self._cache[fun] = ret\n            except AttributeError:\n                # multi-threading race condition, see:\n                # https://github.com/giampaolo/psutil/issues/1948\n                pass",
+   "            self._cache[fun] = ret"), "fires:C16.R4")
+V("C16", "memoiser-no-attrerror-case", C,
+  ("        except AttributeError:\n            # case 2: we never entered oneshot() ctx\n            try:\n                return fun(self)\n            except Exception as err:  # noqa: BLE001\n                raise err from None\n        except KeyError:",
+   "        except (AttributeError, KeyError):"), "fires:C16.R4")
+V("C16", "as_dict-catches-error", I,
+  ("                except (AccessDenied, ZombieProcess):\n                    ret = ad_value",
+   "                except Error:\n                    ret = ad_value"), "fires:C16.R5")
+V("C16", "as_dict-validation-after", I,
+  ("            attrs = set(attrs)\n            invalid_names = attrs - valid_names\n            if invalid_names:",
+   "            attrs = set(attrs)\n            invalid_names = attrs - valid_names\n            if invalid_names and False:"),
+  "fires:C16.R5")
+V("C16", "as_dict-zombie-not-advalue", I,
+  ("                except (AccessDenied, ZombieProcess):\n                    ret = ad_value",
+   "                except AccessDenied:\n                    ret = ad_value"), "fires:C16.R5")
+
+# ----------------------------------------------------------------- C03
+V("C03", "decorator-dropped-num-fds", L,
+  ("    @wrap_exceptions\n    def num_fds(self):", "    def num_fds(self):"), "fires:C03.R1")
+V("C03", "decorator-dropped-environ", L,
+  ("    @wrap_exceptions\n    def environ(self):", "    def environ(self):"), "fires:C03.R1")
+V("C03", "new-access-in-undecorated-helper", L,
+  ("            data = self._read_status_file()\n            match = _re.findall(data)",
+   "            data = bcat(f\"{self._procfs_path}/{self.pid}/status\")\n            match = _re.findall(data)"),
+  "fires:C03.R1")
+V("C03", "rollup-fallback-narrowed", L,
+  ("                except (ProcessLookupError, FileNotFoundError):\n                    uss, pss, swap = self._parse_smaps()",
+   "                except ProcessLookupError:\n                    uss, pss, swap = self._parse_smaps()"),
+  "silent")  # FNF then goes to wrap_exceptions: still only psutil errors
+V("C03", "handler-shadowing", L,
+  ("        except PermissionError as err:\n            raise AccessDenied(pid, name) from err\n        except ProcessLookupError as err:",
+   "        except OSError as err:\n            raise AccessDenied(pid, name) from err\n        except ProcessLookupError as err:"),
+  "fires:C03.R2")
+V("C03", "zombie-check-dropped-esrch", L,
+  ("        except ProcessLookupError as err:\n            self._raise_if_zombie()\n            raise NoSuchProcess(pid, name) from err",
+   "        except ProcessLookupError as err:\n            raise NoSuchProcess(pid, name) from err"),
+  "fires:C03.R2")
+V("C03", "probe-inverted", L,
+  ("            if not os.path.exists(f\"{self._procfs_path}/{pid}/stat\"):\n                raise NoSuchProcess(pid, name) from err\n            raise",
+   "            if os.path.exists(f\"{self._procfs_path}/{pid}/stat\"):\n                raise NoSuchProcess(pid, name) from err\n            raise"),
+  "fires:C03.R2")
+V("C03", "wrong-pid-in-exception", L,
+  ("        pid, name = self.pid, self._name\n        try:\n            return fun(self, *args, **kwargs)",
+   "        pid, name = self._ppid, self._name\n        try:\n            return fun(self, *args, **kwargs)"),
+  "fires:C03.R2")
+V("C03", "threads-hit-enoent-not-consulted", L,
+  ("            ntuple = _common.pthread(int(thread_id), utime, stime)\n            retlist.append(ntuple)\n        if hit_enoent:\n            self._raise_if_not_alive()\n        return retlist",
+   "            ntuple = _common.pthread(int(thread_id), utime, stime)\n            retlist.append(ntuple)\n        return retlist"), "fires:C03.R3")
+V("C03", "open-files-fdinfo-flag-lost", L,
+  ("                        # fd gone in the meantime; process may\n                        # still be alive\n                        hit_enoent = True",
+   "                        # fd gone in the meantime; process may\n                        # still be alive\n                        pass"),
+  "fires:C03.R3")
+V("C03", "net-connections-no-alive-check", L,
+  ("        ret = _net_connections.retrieve(kind, self.pid)\n        self._raise_if_not_alive()\n        return ret",
+   "        ret = _net_connections.retrieve(kind, self.pid)\n        return ret"), "fires:C03.R3")
+V("C03", "cmdline-zombie-check-dropped", L,
+  ("            # may happen in case of zombie process\n            self._raise_if_zombie()\n            return []",
+   "            # may happen in case of zombie process\n            return []"), "fires:C03.R4")
+V("C03", "readlink-fallback-before-zombie", L,
+  ("                self._raise_if_zombie()\n                if fallback is not UNSET:\n                    return fallback",
+   "                if fallback is not UNSET:\n                    return fallback\n                self._raise_if_zombie()"),
+  "fires:C03.R4")
+V("C03", "process-iter-nsp-handler-removed", I,
+  ("            except NoSuchProcess:\n                remove(pid)\n    finally:",
+   "            except ZombieProcess:\n                remove(pid)\n    finally:"), "fires:C03.R5")
+V("C03", "ppid-map-handler-narrowed", L,
+  ("        except (FileNotFoundError, ProcessLookupError):\n            # Note: we should be able to access /stat for all processes",
+   "        except FileNotFoundError:\n            # Note: we should be able to access /stat for all processes"),
+  "fires:C03.R5")
+V("C03", "is-running-zombie-false", I,
+  ("        except ZombieProcess:\n            # We should never get here as it's already handled in\n            # Process.__init__; here just for extra safety.\n            return True",
+   "        except ZombieProcess:\n            # We should never get here as it's already handled in\n            # Process.__init__; here just for extra safety.\n            return False"),
+  "fires:C03.R5")
+V("C03", "benign-local-try", L,
+  ("    @wrap_exceptions\n    def num_fds(self):\n        return len(os.listdir(f\"{self._procfs_path}/{self.pid}/fd\"))",
+   "    @wrap_exceptions\n    def num_fds(self):\n        path = f\"{self._procfs_path}/{self.pid}/fd\"\n        names = os.listdir(path)\n        return len(names)"),
+  "silent")
